@@ -13,7 +13,9 @@ import (
 )
 
 type Case struct {
-	Prog *Program `json:"prog"`
+	Prog *Program `json:"prog,omitempty"`
+	// Raw: an arbitrary source; judged only if Parse accepts it.
+	Raw *mon.Str `json:"raw,omitempty"`
 }
 
 func init() {
@@ -37,21 +39,57 @@ func generate(w *mon.W) {
 	rng := gen.RNG(w.Seed, "c11")
 	g := &gen.Syn{Rng: rng}
 	n := w.Pick(15_000, 300_000)
+	var corpus []string
 	for i := 0; i < n && !w.Stopped(); i++ {
 		prog := gen.SynProgram(g, i)
 		c := &Case{Prog: prog}
-		w.Do(Print(prog, Layout{Mode: 0}).Src, func(r *mon.R) { Check(c, r) })
+		src := Print(prog, Layout{Mode: 0}).Src
+		if len(corpus) < 400 && len(src) < 300 {
+			corpus = append(corpus, src)
+		}
+		w.Do(src, func(r *mon.R) { Check(c, r) })
+	}
+	// whatever Parse accepts must be walkable: corrupted programs that still parse
+	corpus = append(corpus, gen.Seeds()...)
+	mrng := gen.RNG(w.Seed, "c11mut")
+	m := w.Pick(60_000, 1_500_000)
+	for i := 0; i < m && !w.Stopped(); i++ {
+		var s string
+		if i%4 == 0 {
+			s = gen.MutateBytes(mrng, corpus[mrng.Intn(len(corpus))])
+		} else {
+			s = gen.MutateTokens(mrng, corpus[mrng.Intn(len(corpus))])
+		}
+		ms := mon.Str(s)
+		c := &Case{Raw: &ms}
+		w.Do("raw|"+s, func(r *mon.R) { Check(c, r) })
 	}
 }
 
 // Check decides one program.
 func Check(c *Case, r *mon.R) {
 	r.Case = c
-	src := Print(c.Prog, Layout{Mode: 0}).Src
+	var src string
+	if c.Raw != nil {
+		src = string(*c.Raw)
+	} else {
+		src = Print(c.Prog, Layout{Mode: 0}).Src
+	}
 	stmts, err, o := mon.Parse(src)
-	if o.Anomalous() || err != nil {
+	if o.Anomalous() {
 		r.Inconclusive("foreign_parse")
 		return
+	}
+	if err != nil {
+		if c.Raw != nil {
+			r.Inconclusive("mutant_rejected")
+		} else {
+			r.Inconclusive("foreign_parse")
+		}
+		return
+	}
+	if c.Raw != nil {
+		r.Count("accepted_mutants_walked", 1)
 	}
 	rng := gen.RNG(int64(len(src)), src)
 	for si, st := range stmts {
@@ -124,6 +162,39 @@ func Check(c *Case, r *mon.R) {
 				}
 			}
 		}
+		// re-entrancy: a visitor may itself walk the subtree it is given (twice);
+		// the outer traversal must be unaffected
+		{
+			var outer []*RNode
+			inner := 0
+			o := mon.Walk(st, func(n parser.Node) bool {
+				if IsNilNode(n) {
+					return false
+				}
+				if rn := find(n); rn != nil {
+					outer = append(outer, rn)
+				}
+				for k := 0; k < 2; k++ {
+					parser.Walk(n, func(m parser.Node) bool { inner++; return true })
+				}
+				return true
+			})
+			if o.Anomalous() {
+				r.Violation("", "Walk of statement %d of %q with a visitor that walks each node's subtree itself: %s\n%s", si, src, o.String(), o.Stack)
+				return
+			}
+			if len(outer) != len(order) {
+				r.Violation("", "Walk of statement %d of %q visits %d nodes when the visitor itself calls Walk on each node, %d otherwise", si, src, len(outer), len(order))
+				return
+			}
+			for i := range outer {
+				if outer[i] != order[i] {
+					r.Violation("", "Walk of statement %d of %q visits nodes in a different order when the visitor itself calls Walk (position %d: %s vs %s)", si, src, i, outer[i].TypeName, order[i].TypeName)
+					return
+				}
+			}
+			r.Count("nested_walks_checked", 1)
+		}
 		// pruning
 		cand := order
 		if len(cand) > 24 {
@@ -160,9 +231,9 @@ func Check(c *Case, r *mon.R) {
 		}
 		r.Count("nodes_visited", int64(len(order)))
 	}
-	if c.Prog.Weight() >= 3 {
+	if (c.Prog != nil && c.Prog.Weight() >= 3) || (c.Raw != nil && len(gen.Lexemes(src)) >= 6) {
 		r.Nontrivial()
-		if len(src) < 80 {
+		if len(src) < 80 && c.Prog != nil {
 			r.Sample(map[string]any{"source": src})
 		}
 	}
